@@ -180,9 +180,62 @@ func wide() *family {
 	})
 }
 
+// idSweep: one i32 field at EVERY id 0..4200 and at every power of two +-1 up to 65535 (thresholds of
+// any id-indexed table), alternately default / required / optional-pointer.
+func idSweep() *family {
+	return cached("idsweep", func() *family {
+		f := &family{name: "id-sweep"}
+		seen := map[uint16]bool{}
+		add := func(id uint16) {
+			if seen[id] {
+				return
+			}
+			seen[id] = true
+			sh := []universe.FieldShell{{Req: ref.ReqDefault}, {Req: ref.ReqRequired}, {Req: ref.ReqOptional, Ptr: true}}[int(id)%3]
+			f.items = append(f.items, universe.One(universe.Sc(ref.KI32), sh, id))
+		}
+		for id := 0; id <= 4200; id++ {
+			add(uint16(id))
+		}
+		for k := 12; k <= 16; k++ {
+			for d := -1; d <= 1; d++ {
+				if v := (1 << k) + d; v >= 0 && v <= 65535 {
+					add(uint16(v))
+				}
+			}
+		}
+		return f
+	})
+}
+
+// denseIDs: every id subset of {0..4} with 2-4 members (field-count/max-id coincidences, id 0 with gaps).
+func denseIDs() *family {
+	return cached("dense", func() *family {
+		f := &family{name: "small-id-sets"}
+		kinds := []ref.Kind{ref.KI32, ref.KString, ref.KBool, ref.KI64}
+		for mask := 1; mask < 32; mask++ {
+			var ids []uint16
+			for b := 0; b < 5; b++ {
+				if mask&(1<<b) != 0 {
+					ids = append(ids, uint16(b))
+				}
+			}
+			if len(ids) < 2 || len(ids) > 4 {
+				continue
+			}
+			s := &ref.Struct{}
+			for i, id := range ids {
+				s.Fields = append(s.Fields, &ref.Field{ID: id, Req: ref.ReqDefault, Type: universe.Sc(kinds[i])})
+			}
+			f.items = append(f.items, s)
+		}
+		return f
+	})
+}
+
 // codecFamilies is the type space shared by C01, C02, C04, C16 and C18.
 func codecFamilies(tier universe.Tier) []*family {
-	fs := []*family{singles(3), idFamily(), pairs(tier), depth4(), wide()}
+	fs := []*family{singles(3), idFamily(), pairs(tier), depth4(), wide(), idSweep(), denseIDs()}
 	if tier == universe.Thorough {
 		fs = append(fs, triples())
 	}
